@@ -77,49 +77,128 @@ def poly_kernel(fn):
     return {'arity': len(names), 'uses_argsort': uses_argsort, 'faces': faces}
 
 
+def _self_attr(n):
+    if isinstance(n, ast.Attribute) and isinstance(n.value, ast.Name) and n.value.id == 'self':
+        return n.attr
+    return None
+
+
+WHERE_TP = 'np.where(self.elements.types == tp)[0]'
+
+
+class _Stop(Exception):
+    def __init__(self, how):
+        self.how = how
+
+
+def _dispatch_for(loop_body, env0, ty):
+    """abstract run of the body of `for tp in types:` for tp = ty: which kernel is called on
+    elements[i] (and with which integer cast), or 'skip' / 'raise'"""
+    env = dict(env0)
+    calls = []
+
+    def test(t):
+        if isinstance(t, ast.Compare) and len(t.ops) == 1 and isinstance(t.left, ast.Name) and t.left.id == 'tp':
+            op, r = t.ops[0], t.comparators[0]
+            if isinstance(op, (ast.Eq, ast.NotEq)) and isinstance(r, ast.Constant) and isinstance(r.value, str):
+                return (ty == r.value) == isinstance(op, ast.Eq)
+            if isinstance(op, (ast.In, ast.NotIn)):
+                if isinstance(r, ast.Name) and isinstance(env.get(r.id), dict):
+                    keys = set(env[r.id])
+                elif isinstance(r, (ast.Tuple, ast.List, ast.Set)) and \
+                        all(isinstance(e, ast.Constant) for e in r.elts):
+                    keys = {e.value for e in r.elts}
+                else:
+                    raise TranslateError(f'to_polyhedron: test {ast.unparse(t)!r}')
+                return (ty in keys) == isinstance(op, ast.In)
+        raise TranslateError(f'to_polyhedron: test {ast.unparse(t)!r}')
+
+    def run(stmts):
+        for st in stmts:
+            if isinstance(st, ast.Pass) or (isinstance(st, ast.Expr) and isinstance(st.value, ast.Constant)):
+                continue
+            if isinstance(st, ast.Continue):
+                raise _Stop('skip')
+            if isinstance(st, ast.Raise):
+                if 'NotImplementedError' not in ast.unparse(st):
+                    raise TranslateError('to_polyhedron: raises something else than NotImplementedError')
+                raise _Stop('raise')
+            if isinstance(st, ast.If):
+                run(st.body if test(st.test) else st.orelse)
+                continue
+            if isinstance(st, ast.Assign) and len(st.targets) == 1 and isinstance(st.targets[0], ast.Name):
+                nm, v = st.targets[0].id, st.value
+                if ast.unparse(v) == WHERE_TP:
+                    env[nm] = 'INDICES'
+                    continue
+                if isinstance(v, ast.Subscript) and isinstance(v.value, ast.Name) and \
+                        isinstance(env.get(v.value.id), dict) and ast.unparse(v.slice) == 'tp':
+                    if ty not in env[v.value.id]:
+                        raise _Stop('raise')          # KeyError: not the modelled NotImplementedError
+                    env[nm] = ('kernel', env[v.value.id][ty])
+                    continue
+                if _self_attr(v):
+                    env[nm] = ('kernel', _self_attr(v))
+                    continue
+            if isinstance(st, ast.For) and isinstance(st.target, ast.Name) and st.target.id == 'i' \
+                    and not st.orelse and len(st.body) == 1:
+                it = st.iter
+                if not ((isinstance(it, ast.Name) and env.get(it.id) == 'INDICES') or ast.unparse(it) == WHERE_TP):
+                    raise TranslateError(f'to_polyhedron: loop over {ast.unparse(it)!r}')
+                b = st.body[0]
+                if isinstance(b, ast.Assign) and ast.unparse(b.targets[0]) == 'face_dat[i]' and \
+                        isinstance(b.value, ast.Call) and not b.value.keywords and len(b.value.args) == 3:
+                    f = b.value.func
+                    kn = _self_attr(f) or (isinstance(f, ast.Name) and isinstance(env.get(f.id), tuple)
+                                           and env[f.id][1])
+                    args = [ast.unparse(a) for a in b.value.args]
+                    m = re.fullmatch(r'elements\[i\]\.astype\(np\.(int32|int64)\)', args[0])
+                    if kn and m and args[1:] == ['node_ids', 'argsort']:
+                        calls.append((kn, m.group(1) == 'int32'))
+                        continue
+            raise TranslateError(f'to_polyhedron: statement {ast.unparse(st)[:80]!r} in the type loop')
+    try:
+        run(loop_body)
+    except _Stop as e:
+        if calls:
+            raise TranslateError(f'to_polyhedron: {ty}: kernel call followed by {e.how}')
+        return e.how
+    if len(calls) > 1:
+        raise TranslateError(f'to_polyhedron: {ty}: {len(calls)} kernel calls')
+    return calls[0] if calls else 'skip'
+
+
 def to_polyhedron(fn):
+    """the prologue / epilogue are pinned; the dispatch type -> kernel inside the type loop
+    is obtained by an abstract run of the loop body for each type (if / elif chains, a
+    dict of kernels, guard clauses with continue / raise are all read the same way)"""
     src = ast.unparse(fn)
     need = ['node_ids = self.nodes.ids', 'argsort = node_ids.argsort()',
             'node_ids = node_ids[argsort]', 'elements = self.elements.data',
-            'types = np.unique(self.elements.types)',
-            'indices = np.where(self.elements.types == tp)[0]']
+            'types = np.unique(self.elements.types)', WHERE_TP]
     for n in need:
         if src.count(n) != 1:
             raise TranslateError(f'to_polyhedron: expected exactly one {n!r}')
     loops = [s for s in fn.body if isinstance(s, ast.For)]
     if not loops or ast.unparse(loops[0].target) != 'tp' or ast.unparse(loops[0].iter) != 'types':
         raise TranslateError('to_polyhedron: type loop not found')
-    chain = [s for s in loops[0].body if isinstance(s, ast.If)]
-    if len(chain) != 1:
-        raise TranslateError('to_polyhedron: type chain not found')
-    node = chain[0]
+    env = {}
+    for s in fn.body[:fn.body.index(loops[0])]:
+        if isinstance(s, ast.Assign) and len(s.targets) == 1 and isinstance(s.targets[0], ast.Name) and \
+                isinstance(s.value, ast.Dict) and s.value.keys and \
+                all(isinstance(k, ast.Constant) and isinstance(k.value, str) for k in s.value.keys) and \
+                all(_self_attr(v) for v in s.value.values):
+            env[s.targets[0].id] = {k.value: _self_attr(v) for k, v in zip(s.value.keys, s.value.values)}
     disp = {}
-    while True:
-        t = node.test
-        if not (isinstance(t, ast.Compare) and isinstance(t.left, ast.Name) and t.left.id == 'tp' and
-                len(t.ops) == 1 and isinstance(t.ops[0], ast.Eq) and
-                isinstance(t.comparators[0], ast.Constant)):
-            raise TranslateError('to_polyhedron: unexpected test')
-        ty = t.comparators[0].value
-        body = ast.unparse(node.body)
-        if ty == 'polyhedron':
-            if body != 'pass':
-                raise TranslateError('to_polyhedron: polyhedron branch is not pass')
-        else:
-            for bits in ('int32', 'int64'):
-                want = (f'for i in indices:\n    face_dat[i] = self.{ty}_to_polyhedron('
-                        f'elements[i].astype(np.{bits}), node_ids, argsort)')
-                if body == want:
-                    break
-            else:
-                raise TranslateError(f'to_polyhedron: unexpected branch for {ty}: {body!r}')
-            disp[ty] = (f'{ty}_to_polyhedron', bits == 'int32')
-        if len(node.orelse) == 1 and isinstance(node.orelse[0], ast.If):
-            node = node.orelse[0]
-            continue
-        if not (len(node.orelse) == 1 and isinstance(node.orelse[0], ast.Raise)):
-            raise TranslateError('to_polyhedron: chain must end in raise')
-        break
+    for ty in KERNEL_TYPES:
+        r = _dispatch_for(loops[0].body, env, ty)
+        if not isinstance(r, tuple):
+            raise TranslateError(f'to_polyhedron: type {ty} is not converted ({r})')
+        disp[ty] = r
+    if _dispatch_for(loops[0].body, env, 'polyhedron') != 'skip':
+        raise TranslateError('to_polyhedron: polyhedron cells are not passed through')
+    if _dispatch_for(loops[0].body, env, 'quad') != 'raise':
+        raise TranslateError('to_polyhedron: unsupported types do not raise')
     tail = ["polyhedron = FEMAttribute('polyhedron', ids=self.elements.ids, data=self.elements.data)",
             "elements = FEMElementalAttribute('ELEMENT', {'polyhedron': polyhedron})",
             "face = FEMElementalAttribute('face', {'polyhedron': FEMAttribute('face', "
